@@ -88,7 +88,7 @@ def run(spec, out):
         f = sys._getframe(2)
         while f is not None:
             code = f.f_code
-            private = code.co_name.startswith("_") and not code.co_name.endswith("__")  # helpers come and go: name the public caller
+            private = (code.co_name.startswith("_") and not code.co_name.endswith("__")) or "<locals>" in getattr(code, "co_qualname", "")  # helpers and wrappers come and go: name the public caller
             if code.co_filename.startswith(os.path.dirname(measured_file)) and code.co_name not in ("__init__", "__new__", "init_monitor") and not private:
                 qual = getattr(code, "co_qualname", code.co_name)
                 return qual
